@@ -218,7 +218,7 @@ pub fn run(cx: &mut Ctx) {
     let sweep_pats: &[u8] = if cfg!(miri) { &[3] } else { &[0, 1, 3] };
     'sweep: for id in &menu {
         // Skein: sweep only a sub-menu of N per state size in the systematic part
-        if id.fam == Fam::Skein && ![1usize, 7, 32, 33, 64, 100, 129, 300].contains(&id.out) {
+        if id.fam == Fam::Skein && ![1usize, 6, 7, 13, 32, 33, 64, 100, 129, 300].contains(&id.out) {
             continue;
         }
         let top = if cfg!(miri) { id.block_size() + 8 } else { 3 * id.block_size() + 8 };
